@@ -1,10 +1,12 @@
 (* C05 property theorems: statements only; every proof is [exact lemma]. *)
 From Gv Require Import lib.Bytes lib.Gql C05.Lex C05.Parse C05.Limits C05.Print C05.Spec C05.Tokens
   C05.ProofsLex C05.ProofsLimits C05.ProofsParse C05.ProofsMisc C05.ProofsTotal C05.ProofsRoundtrip C05.ProofsWf
-  C05.ProofsFinal C05.ProofsInline C05.PreFix gen.Anchors_C05.
+  C05.ProofsFinal C05.ProofsInline C05.ProofsNul C05.PreFix gen.Anchors_C05.
 From Coq Require Import ZArith.
 
-(* the model uses the rune / keyword / identifier-keyword tables of the Go source, and the source has the repair *)
+(* the model uses the rune / keyword / identifier-keyword tables of the Go source, and the source has the repairs
+   (limits accounting; NUL ends the input; quotes inside a block string are content; line terminator after a
+   block string that ends in a quote or backslash) *)
 Theorem c05_anchors : anchors_statement.
 Proof. exact anchors_ok. Qed.
 Print Assumptions c05_anchors.
@@ -27,6 +29,17 @@ Print Assumptions c05_tokens_in_range.
 Theorem c05_tokens_ordered : forall b ts, (len b < two32)%N -> tokenize b = Some ts -> ordered ts.
 Proof. exact tokens_ordered_proof. Qed.
 Print Assumptions c05_tokens_ordered.
+
+(* since c05_fix_rt-nul-in-string: a NUL byte ends the input for every reader of the lexer (strings, block strings
+   and comments included) -- whatever follows it has no influence on the token stream, hence none on the parse.
+   (Before the repair it ended a string or comment but lexing went on behind it: c05_nul_in_string_refuted_before_fix.) *)
+Theorem c05_nul_ends_input : forall a b, (len (a ++ 0 :: b) < two32)%N -> tokenize (a ++ 0 :: b) = tokenize a.
+Proof. exact nul_ends_input_proof. Qed.
+Print Assumptions c05_nul_ends_input.
+
+Theorem c05_nul_ends_input_parse : forall a b, (len (a ++ 0 :: b) < two32)%N -> parse_bytes (a ++ 0 :: b) = parse_bytes a.
+Proof. exact nul_ends_input_parse_proof. Qed.
+Print Assumptions c05_nul_ends_input_parse.
 
 (* ---- limits, for all token streams that parse ----
    [lim_run fx cm]: fx = the repair of the keyword reset, cm = the repair of the shorthand operation;
